@@ -190,13 +190,13 @@ def gen_netlist(rng, mode="full", max_stmts=10, max_inputs=5, depth=4, lookalike
                 return g
 
     if nbb is None:
-        nbb = rng.choice([0, 0, 0, 1, 2])
+        nbb = rng.choice([0, 0, 0, 1, 2, 3])
     bb_budget = nbb
     for si in range(nstm):
         r = rng.random()
         if bb_budget and r < 0.25:
             bb_budget -= 1
-            t = rng.choice(sorted(DEFAULT_BBS))
+            t = rng.choice(sorted(bbdefs)) if bbdefs and rng.random() < 0.6 else rng.choice(sorted(DEFAULT_BBS))
             bbdefs[t] = DEFAULT_BBS[t]
             inst = fresh_inst("bb")
             pins = []
@@ -493,6 +493,7 @@ def render(rng, nl, layout="free", comments=0.0, shuffle=True, split_decl=None):
     decl("wire", [w for w in wires if w not in undeclared])
     if rng.random() < 0.3 and not fast:
         decl("wire", nl["outputs"][:1])
+    bb_open = {}
     for s in nl["stmts"]:
         if s["k"] == "prim":
             toks = [s["gate"]]
@@ -536,7 +537,15 @@ def render(rng, nl, layout="free", comments=0.0, shuffle=True, split_decl=None):
             toks.append(");" if fast else ")")
             if not fast:
                 toks.append(";")
-            items.append(toks)
+            if not fast and bb_open.get(s["type"]) is not None and rng.random() < 0.5:
+                # several instances of one cell in one statement:  ff i0 (...), i1 (...);
+                prev = bb_open[s["type"]]
+                prev[-1:] = [","] + toks[1:]
+                if nl.get("_stats") is not None:
+                    nl["_stats"]["multi_instance_blackbox_statement"] = nl["_stats"].get("multi_instance_blackbox_statement", 0) + 1
+            else:
+                items.append(toks)
+                bb_open[s["type"]] = toks
     body = decls + items
     if shuffle:
         if rng.random() < 0.5:
